@@ -170,6 +170,8 @@ def try_extract(o):
         return extract(o, None), None
     except NotExtractable as e:
         return None, str(e)
+    except Exception as e:        # a malformed object (e.g. an array where a scalar belongs)
+        return None, "malformed object: %s: %s" % (type(e).__name__, str(e)[:160])
 
 
 def describe(o):
